@@ -611,7 +611,7 @@ def check(ck):
             x0 = safe_expand(rl, e)
             if not isinstance(x0, ast.Name):
                 return holds_own_mutex(x0)
-        if isinstance(e, ast.Call) and A.call_attr(e) in holders and [A.norm(a) for a in e.args] == [inv]:
+        if isinstance(e, ast.Call) and A.call_attr(e) in holders and [_xs(rl, a, e) for a in e.args] == [inv]:
             return True
         if not helper_exists:
             # `m = TABLE[(qualified name, arg hash)]` under the table lock, then `with m:`
@@ -629,9 +629,11 @@ def check(ck):
     if len(section.sections()) != 1 or section.leaks():
         ck.ob(R2, rl.key(None, "critical-section"), False, "memento_run_local does not hold the per-call mutex of its own invocation", rl.where())
     else:
-        for (name, recv) in (("get_memento", "storage_backend"), ("_filter_call", None), ("is_memoized", "storage_backend"), ("memoize", "storage_backend"),
+        # the storage backend is the third parameter (named directly or through a local)
+        backend = rl.fi.params[2] if len(rl.fi.params) > 2 else "storage_backend"
+        for (name, recv) in (("get_memento", backend), ("_filter_call", None), ("is_memoized", backend), ("memoize", backend),
                              ("process_existing_memento", None)):
-            cs = [c for c in rl.calls(name) if recv is None or A.dotted(A.call_recv(c)) == recv]
+            cs = [c for c in rl.calls(name) if recv is None or (A.call_recv(c) is not None and _xs(rl, A.call_recv(c), c) == recv)]
             ok = bool(cs) and all(section.held(c) for c in cs)
             ck.ob(R2, rl.key(None, "in-section-" + name), ok, "%s happens inside the per-call critical section" % name if ok else
                   ("%s is not called at all" % name if not cs else
